@@ -1,3 +1,5 @@
 //! Kani harnesses spliced into a scratch copy of `rustzx-core` (cfg(kani) only).
 #![allow(dead_code, unused_imports, clippy::all)]
+mod host;
 mod machine;
+mod ctl_io;
